@@ -140,6 +140,102 @@ Fixpoint quiet (f : tuple) (rs : N) (h : list ev) : bool :=
 
 End Run.
 
+(* ---- a routine with a conntrack cache ----------------------------------------------------------------------
+
+   firewall.ConntrackCacheTicker: a ticker of period P started at instant c0 counts ticks; Get() hands out the cache
+   and replaces it by an empty one if a tick happened since the previous Get. Packets take no time, so this is: the
+   cache is emptied whenever the clock passes (or reaches) an instant c0 + k*P, k >= 1. A reload does not touch the
+   cache (it belongs to the receive routine, not to the firewall). *)
+Record cnode := mkCN { cn_node : node; cn_cache : list tuple; cn_period : Z; cn_origin : Z }.
+
+Definition tick_idx (P c0 t : Z) : Z := ((t - c0) / P)%Z.
+(* did the ticker fire in (t, t'] ? *)
+Definition ticked (P c0 t t' : Z) : bool := (tick_idx P c0 t <? tick_idx P c0 t')%Z.
+
+Definition cboot (n : node) (P : Z) : cnode := mkCN n [] P (n_now n).
+
+Section RunCache.
+Variable allowed : N -> N -> bool -> tuple -> bool.
+Variable addr_ok : N -> N -> tuple -> bool.
+
+Definition cstep (e : ev) (cn : cnode) : option bool * cnode :=
+  let n := cn_node cn in
+  match e with
+  | EPkt p d t =>
+      let '(v, ch, ct) := drop_c allowed addr_ok (n_fw n) p (n_now n) d t (cn_cache cn) (n_ct n) in
+      (Some v, mkCN (mkNode (n_fw n) ct (n_now n)) ch (cn_period cn) (cn_origin cn))
+  | ESleep d =>
+      let now' := (n_now n + Z.max 0 d)%Z in
+      (None, mkCN (mkNode (n_fw n) (n_ct n) now')
+                  (if ticked (cn_period cn) (cn_origin cn) (n_now n) now' then [] else cn_cache cn)
+                  (cn_period cn) (cn_origin cn))
+  | EReload rs tcp udp def =>
+      (None, mkCN (reload rs tcp udp def n) (cn_cache cn) (cn_period cn) (cn_origin cn))
+  end.
+
+Fixpoint cexec (h : list ev) (cn : cnode) : cnode :=
+  match h with [] => cn | e :: r => cexec r (snd (cstep e cn)) end.
+
+Fixpoint cverdicts (h : list ev) (cn : cnode) : list bool :=
+  match h with
+  | [] => []
+  | e :: r => match fst (cstep e cn) with Some v => [v] | None => [] end ++ cverdicts r (snd (cstep e cn))
+  end.
+
+(* the specification of flow f with a cache: the state of the flow as before, plus "f is in the cache".
+   A cached flow passes (address checks first) and nothing changes - in particular the idle period is NOT
+   restarted; f enters the cache when a packet of f is honoured by the table (live and valid); the cache is
+   emptied at every tick. This is the documented staleness: a flow may be honoured for up to one cache period
+   after it expired or lost its rule. *)
+Record cstate := mkCS { cs_s : sstate; cs_cached : bool; cs_period : Z; cs_origin : Z }.
+
+Definition cfl_verdict (cs : cstate) (p : N) (d : bool) (f : tuple) : bool :=
+  let s := cs_s cs in
+  addr_ok (f_rules (s_fw s)) p f
+  && (cs_cached cs || fl_live allowed (s_fw s) (s_now s) (s_fs s) p f || allowed (f_rules (s_fw s)) p d f).
+
+Definition cs_step (wr : bool) (f : tuple) (e : ev) (cs : cstate) : cstate :=
+  let s := cs_s cs in
+  match e with
+  | ESleep d =>
+      let now' := (s_now s + Z.max 0 d)%Z in
+      mkCS (mkS (s_fw s) now' (s_fs s))
+           (if ticked (cs_period cs) (cs_origin cs) (s_now s) now' then false else cs_cached cs)
+           (cs_period cs) (cs_origin cs)
+  | EReload rs tcp udp def => mkCS (s_reload wr rs tcp udp def s) (cs_cached cs) (cs_period cs) (cs_origin cs)
+  | EPkt p d t =>
+      if negb (tuple_eqb f t) then cs
+      else if negb (addr_ok (f_rules (s_fw s)) p f) then cs
+      else if cs_cached cs then cs
+      else mkCS (mkS (s_fw s) (s_now s) (fl_next allowed addr_ok (s_fw s) (s_now s) (s_fs s) p d f))
+                (fl_live allowed (s_fw s) (s_now s) (s_fs s) p f) (cs_period cs) (cs_origin cs)
+  end.
+
+Fixpoint cflow_ok (wr : bool) (f : tuple) (cs : cstate) (h : list ev) (vs : list bool) : bool :=
+  match h with
+  | [] => match vs with [] => true | _ => false end
+  | EPkt p d t :: r =>
+      match vs with
+      | [] => false
+      | v :: vs' =>
+          (if tuple_eqb f t then Bool.eqb v (cfl_verdict cs p d f) else true)
+          && cflow_ok wr f (cs_step wr f (EPkt p d t) cs) r vs'
+      end
+  | e :: r => cflow_ok wr f (cs_step wr f e cs) r vs
+  end.
+
+End RunCache.
+
+Definition cspec_boot (s : sstate) (P : Z) : cstate := mkCS s false P (s_now s).
+
+(* no tick of the cache ticker while h runs from instant t *)
+Fixpoint no_tick (P c0 t : Z) (h : list ev) : bool :=
+  match h with
+  | [] => true
+  | ESleep d :: r => negb (ticked P c0 t (t + Z.max 0 d)) && no_tick P c0 (t + Z.max 0 d)%Z r
+  | _ :: r => no_tick P c0 t r
+  end.
+
 (* the verdicts of the packets of flow f among vs (one per packet of h) *)
 Fixpoint restrict (f : tuple) (h : list ev) (vs : list bool) : list bool :=
   match h with
